@@ -32,3 +32,5 @@ from . import c18_constructors  # noqa
 from . import util_validators   # noqa
 from . import base_metric       # noqa
 from . import c01_lemmas        # noqa
+from . import c04_classifiers   # noqa
+from . import base_fit          # noqa
